@@ -33,6 +33,8 @@ pub enum SigFault {
     EmptyList,
     Duplicate(u8),
     DropEntry(u8),
+    /// a copy of an entry (same signature value) whose key id is written in upper-case hexadecimal
+    DuplicateOtherCase(u8),
 }
 
 #[derive(Clone, Debug, Serialize, Deserialize)]
@@ -129,6 +131,8 @@ impl Property for C01 {
                     Just(SigFault::EmptyList),
                     (0u8..3).prop_map(SigFault::Duplicate),
                     (0u8..3).prop_map(SigFault::DropEntry),
+                    (0u8..6).prop_map(SigFault::DuplicateOtherCase),
+                    (0u8..6).prop_map(SigFault::DuplicateOtherCase),
                 ],
             ),
         )
@@ -177,6 +181,15 @@ impl Property for C01 {
                 }
                 SigFault::DropEntry(i) => {
                     w.sigs.remove(*i as usize % len);
+                }
+                SigFault::DuplicateOtherCase(i) => {
+                    let mut e = w.sigs[*i as usize % len].clone();
+                    e.label_upper = true;
+                    if *i % 2 == 0 {
+                        w.sigs.push(e);
+                    } else {
+                        w.sigs.insert(0, e);
+                    }
                 }
             }
         }
